@@ -48,12 +48,13 @@ META = {
                   "are accepted hop by hop by the specification's own actions. Wire level: every transition of the wire configuration "
                   "(ids \"\", two plain ids, a NUL/CRLF id, a high-byte id, an id with an outer blank; <= 3 hops; foreign multi-value "
                   "requests) runs through a real net/http client -> httptest.Server -> AuthenticateUser and a real gRPC client/server pair "
-                  "over bufconn with the four interceptors; the transports' refusals are a named outcome and UnchangedUpToOWS / "
-                  "AlteredOnlyByHTTPTrim / TransportRefusalIsNotDelivery are decided by TLC.",
+                  "over bufconn with the four interceptors; the transports' refusals are a named outcome; TLC decides the strict Unchanged "
+                  "(HTTPTrim = NoTrim), AlteredOnlyByHTTPTrim and TransportRefusalIsNotDelivery and the real stacks are held against "
+                  "the strict expectations (the HTTP stack's trimming of outer blanks is open finding F11, Sig wire:http-ows-trim).",
     "level_note": "Exhaustive within the stated bounds only: an input whose misbehaviour needs >= 5 (thorough: >= 6) specific bytes outside "
                   "the families is reached only by the seeded mutation traces (no coverage-guided fuzzing). Wire-level hops use two "
-                  "concrete instantiations per id class; HTTP's stripping of blanks around a header value is modelled as the named "
-                  "deviation HTTPTrim (strict Unchanged fails for such ids: MC_prop_wire_strict.cfg). The other hops are "
+                  "concrete instantiations per id class; the as-is model of HTTP's stripping of blanks (HTTPTrim = OWSTrim) is kept as a "
+                  "negative control (MC_prop_wire_strict.cfg refuted, MC_prop_wire_asis.cfg holds). The other hops are "
                   "in-process (http.Header / metadata.MD objects). Error classes are recognised by sentinel errors "
                   "and, for the unexported ones, by their messages. Trusted: TLC, the Json module, the byte-array encoding.",
     "technique": "TLA+ specifications (Tenant.tla, Propagation.tla) model-checked by TLC; TLC-generated cases and behaviours replayed into the "
@@ -235,7 +236,10 @@ def validate_ptrace(ctx, res, ptrace):
 def observations(ctx):
     """Thorough tier: the two named deviations. The strict statements are EXPECTED to fail on the specification
     (TLC's counterexample is the documentation); what is bound to the code is the deviating behaviour itself."""
-    # HTTP strips blanks around a header value: strict Unchanged fails on the wire configuration
+    # open finding F11 - HTTP strips blanks around a header value. As-is model (HTTPTrim = OWSTrim): the weaker
+    # UnchangedUpToOWS holds, the strict Unchanged is refuted (negative control)
+    r = ctx.tlc("tenant", "Propagation", cfg="MC_prop_wire_asis.cfg", workers=1, timeout=600)
+    ctx.require_tlc_ok(r, "Propagation MC_prop_wire_asis.cfg")
     r = ctx.tlc("tenant", "Propagation", cfg="MC_prop_wire_strict.cfg", workers=1, timeout=600, count=False)
     if r.timed_out or r.error or r.violated != "Unchanged":
         incon("MC_prop_wire_strict.cfg: expected TLC to refute Unchanged, got violated=%s error=%s" % (r.violated, (r.error or "")[:200]))
@@ -253,8 +257,8 @@ def observations(ctx):
         incon("TestReplayMetaMisuse replayed %s of %d transitions" % (res.get("cases"), r.emitted))
     ctx.absorb(res, "metadata misuse replay")
     ctx.extra["observations"] = [
-        "HTTP hop: an org id with leading/trailing blanks arrives trimmed (strict Unchanged refuted by TLC on MC_prop_wire_strict.cfg; "
-        "the trimmed delivery is what the real net/http stack does, see wire replay)",
+        "F11 (open): over a real HTTP hop an org id with leading/trailing blanks arrives trimmed; the as-is model (OWSTrim) satisfies "
+        "UnchangedUpToOWS and refutes the strict Unchanged (MC_prop_wire_asis.cfg / MC_prop_wire_strict.cfg)",
         "tenant.Metadata.Set/With do not validate: %d of %d replayed Set calls produce metadata ParseMetadata rejects"
         % ((res.get("extra") or {}).get("metadata_set_results_breaking_the_documented_invariant", 0), r.emitted)]
 
